@@ -206,8 +206,17 @@ def check(ctx):
         for st in h.ast.body:
             for x in ast.walk(st):
                 hbody.add(id(x))
+        def is_ret_list(x, at):
+            if not isinstance(x, ast.Name):
+                return False
+            if x.id in ret_names:
+                return True
+            srcs = value_sources(sv, x, at)         # the returned list under the local name of an inlined helper
+            return bool(srcs) and all(k == "expr" and isinstance(pl, ast.Name) and pl.id in ret_names for k, pl in srcs) or \
+                bool(srcs) and {(k, ast.unparse(pl) if isinstance(pl, ast.AST) else pl) for k, pl in srcs} == \
+                {(k, ast.unparse(pl) if isinstance(pl, ast.AST) else pl) for rn_ in ret_names for k, pl in value_sources(sv, ast.Name(id=rn_, ctx=ast.Load()), at)}
         appends = {n for n in g.nodes if n.kind == "call" and id(n.ast) in hbody and isinstance(n.ast.func, ast.Attribute)
-                   and n.ast.func.attr == "append" and isinstance(n.ast.func.value, ast.Name) and n.ast.func.value.id in ret_names}
+                   and n.ast.func.attr == "append" and is_ret_list(n.ast.func.value, n)}
 
         def outside(n):
             a = n.ast if n.ast is not None else n.stmt
@@ -261,7 +270,8 @@ def check(ctx):
                     if k == "expr" and isinstance(pl, ast.Call):
                         tg = an.targets(sv, g.nodes_for(pl)[0])
                         if tg and all(t.kind == "ctor" and t.cls.name == "ValidationError" for t in tg) and \
-                                any(isinstance(x, ast.Name) and x.id == h.ast.name for x in ast.walk(pl)):
+                                any(isinstance(x, ast.Name) and (x.id == h.ast.name or (
+                                    (lambda ss: bool(ss) and all(k2 == "except" for k2, _ in ss))(value_sources(sv, x, a)))) for x in ast.walk(pl)):
                             continue
                     okk = False
             ctx.ob("handler.appends-that-error", sv, a.ast, okk,
@@ -308,40 +318,48 @@ def check(ctx):
     # ---------------------------------------------------------------- C11.4 required
     fval = Field.methods.get("validate")
     ctx.need(fval is not None, "Field.validate vanished")
-    g = an.cfg(fval)
+    from engine.specialize import Spec
+
+    def required_scenario(f, vparam, none):
+        """f specialised for `self.required` true and the value None (none=True) / empty but not None (none=False)"""
+        def decide(e, node, sp):
+            def is_v(x, at=node, depth=0):
+                """the value, or what stripping / case folding makes of it (an empty string stays empty)"""
+                if not isinstance(x, ast.Name) or depth > 4:
+                    return False
+                if sp.rd is None:
+                    return x.id == vparam
+                srcs = sp.sources(x, at)
+                return bool(srcs) and all(
+                    (k == "param" and pl == vparam) or
+                    (k == "expr" and isinstance(pl, ast.Call) and isinstance(pl.func, ast.Attribute) and not none
+                     and pl.func.attr in ("strip", "lstrip", "rstrip", "lower", "upper", "casefold") and is_v(pl.func.value, sp.where.get(id(pl)), depth + 1))
+                    for k, pl in srcs)
+            if isinstance(e, ast.Attribute) and e.attr == "required" and isinstance(e.value, ast.Name) and e.value.id == f.self_name:
+                return True
+            if is_v(e):
+                return False            # None and empty values are falsy
+            if isinstance(e, ast.Compare) and len(e.ops) == 1 and is_v(e.left) and isinstance(e.comparators[0], ast.Constant) and e.comparators[0].value is None:
+                if isinstance(e.ops[0], ast.Is):
+                    return none
+                if isinstance(e.ops[0], ast.IsNot):
+                    return not none
+            if not none and isinstance(e, ast.Compare) and len(e.ops) == 1 and isinstance(e.left, ast.Call) and isinstance(e.left.func, ast.Name) \
+                    and e.left.func.id == "len" and len(e.left.args) == 1 and is_v(e.left.args[0]) and isinstance(e.comparators[0], ast.Constant) \
+                    and e.comparators[0].value == 0:
+                return isinstance(e.ops[0], (ast.Eq, ast.LtE))
+            return None
+        return Spec(an, f, decide)
     vparam = fval.positional_params[2]
-    req_tests = {n for n in g.nodes if n.kind == "test" and isinstance(n.ast, ast.Attribute) and n.ast.attr == "required"}
-    none_rets = []
-    for r in returns_of(an, fval):
-        for t, tr in dominating_guards(an, fval, r):
-            if tr and isinstance(t.ast, ast.Compare) and isinstance(t.ast.ops[0], ast.Is) and isinstance(t.ast.left, ast.Name) \
-                    and t.ast.left.id == vparam and isinstance(t.ast.comparators[0], ast.Constant) and t.ast.comparators[0].value is None:
-                none_rets.append(r)
-    okq = bool(req_tests)
-    why = "the required test is evaluated before None is let through"
-    for r in none_rets:
-        if must_pass(an, fval, r, lambda n: n in req_tests) is not None:
-            okq, why = False, "None is returned before `required` is consulted: a required field may stay unset"
-    raises = [n for n in g.nodes if n.kind == "raise"]
-    has_req_raise = False
-    for r in raises:
-        dg = dominating_guards(an, fval, r)
-        if any(t in req_tests and tr for t, tr in dg) and any(
-                tr and isinstance(t.ast, ast.Compare) and isinstance(t.ast.ops[0], ast.Is) and isinstance(t.ast.left, ast.Name)
-                and t.ast.left.id == vparam for t, tr in dg):
-            has_req_raise = True
-    if not has_req_raise:
-        okq, why = False, "no rejection of None for required fields"
-    ctx.ob("required.before-none", fval, "required test dominates the None short-circuit", okq, why)
+    spn = required_scenario(fval, vparam, True)
+    okq = not spn.normal_returns() and bool(spn.raises())
+    why = "a required field rejects None before anything lets it through" if okq else (
+        "None is returned although the field is required: a required field may stay unset" if spn.normal_returns() else "no rejection of None for required fields")
+    ctx.ob("required.before-none", fval, "required and value is None -> raise, never return", okq, why)
     for cname in ("StringField", "ListField", "DictField"):
         f = model.method(cname, "_validate")
-        g = an.cfg(f)
-        found = False
-        for r in [n for n in g.nodes if n.kind == "raise"]:
-            dg = dominating_guards(an, f, r)
-            if any(isinstance(t.ast, ast.Attribute) and t.ast.attr == "required" and tr for t, tr in dg) and \
-                    any((not tr) and isinstance(t.ast, ast.Name) for t, tr in dg):
-                found = True
+        spe = required_scenario(f, f.positional_params[2], False)
+        found = not spe.normal_returns() and bool(spe.raises())
         ctx.ob("required.rejects-empty", f, "%s: required and empty -> reject" % cname, found,
                "an empty value is rejected when the field is required" if found else
                "%s no longer rejects an empty value for a required field" % cname)
